@@ -1,5 +1,6 @@
 import Driver.C19Mon
 import OidcModel.Model.DiscoveryModel
+import OidcModel.Model.ProviderC19Model
 open Kv Drv
 
 namespace Drv.C19
@@ -62,11 +63,69 @@ def agreeConfig (l : Line) : Bool :=
   o.pkce == m.pkce &&
   (o.requestObject == m.requestObject || o.requestObject == "na")
 
+/-! #### kind=options: the REGENERATED `NewProvider` on the same option list -/
+
+def natList (l : Line) (k : String) : List Nat := (list l k).map String.toNat!
+
+def parseOpts (l : Line) : List Opt :=
+  (List.range (nat l "on")).map fun i =>
+    let p := s!"o{i}."
+    let e := fun (j : Nat) => parseEndpoint l s!"{p}e{j}"
+    match str l (p ++ "k") with
+    | "insecure" => .allowInsecure
+    | "auth" => .authEndpoint (e 0) | "token" => .tokenEndpoint (e 0) | "introspection" => .introspectionEndpoint (e 0)
+    | "userinfo" => .userinfoEndpoint (e 0) | "revocation" => .revocationEndpoint (e 0) | "endsession" => .endSessionEndpoint (e 0)
+    | "keys" => .keysEndpoint (e 0) | "device" => .deviceAuthorizationEndpoint (e 0)
+    | "eps" => .endpoints (e 0) (e 1) (e 2) (e 3) (e 4) (e 5)
+    | "interceptors" => .httpInterceptors (natList l (p ++ "l"))
+    | "atks" => .accessTokenKeySet (.custom (nat l (p ++ "id"))) | "hintks" => .idTokenHintKeySet (.custom (nat l (p ++ "id")))
+    | "atopts" => .accessTokenVerifierOpts (natList l (p ++ "l")) | "hintopts" => .idTokenHintVerifierOpts (natList l (p ++ "l"))
+    | "cors" => .corsOptions (if nat l (p ++ "id") == 0 then .nil else .custom (nat l (p ++ "id")))
+    | _ => .logger (.custom (nat l (p ++ "id")))
+
+def showKS : C19KeySet → String
+  | .nil => "nil" | .openID _ => "storage" | .custom n => s!"c{n}"
+
+/-- the model's provider for the line: through the regenerated constructor the harness used -/
+def optionsModel (l : Line) : Go.R C19Provider :=
+  let parse := parseOracleP l "is.arg" "ip."
+  let opts := (parseOpts l).map Opt.toOption
+  if str l "ctor" == "NewOpenIDProvider" then GenOp.NewOpenIDProvider 0 parse (str l "is.arg") {} {} opts
+  else GenOp.NewProvider 0 {} {} (GenServe.StaticIssuer 0 parse (str l "is.arg")) opts
+
+def optionsInput (l : Line) (p : C19Provider) : Input :=
+  match optionsLegacy l with
+  | some eps => legacyInputOf (GenOp.NewLegacyServer 0 p eps) (str l "is.arg")
+  | none => inputOf p (str l "is.arg")
+
+def agreeOptions (l : Line) : String × Bool :=
+  match optionsModel l with
+  | .error e => ("err:" ++ e, !(bool l "acc") && str l "o.err" == e)
+  | .ok p =>
+    let i := optionsInput l p
+    let m := modelObs i
+    let o := parseObs l
+    let ctx := GenServe.ContextWithIssuer 0 {} (str l "is.arg")
+    let atv := GenOp.Provider_AccessTokenVerifier 0 p ctx
+    let hint := GenOp.Provider_IDTokenHintVerifier 0 p ctx
+    let trace := if (optionsLegacy l).isSome then [] else p.interceptors
+    (docSummary m.doc,
+     bool l "acc" && o.status == m.status && o.doc == m.doc &&
+     o.probe.all (fun (f, st) => match m.probe.find? (·.1 == f) with | some (_, ms) => served st == served ms | none => false) &&
+     (bool l "x.insecure") == Gen.Provider_Insecure 0 p.toOpProvider &&
+     str l "x.atks" == showKS atv.keySet && str l "x.hintks" == showKS hint.keySet &&
+     natList l "x.atopts" == atv.opts && natList l "x.hintopts" == hint.opts &&
+     str l "x.atiss" == atv.issuer && str l "x.hintiss" == hint.issuer &&
+     natList l "x.trace" == trace)
+
 def showRes (r : Go.R Unit) : String := match r with | .ok _ => "ok" | .error e => "err:" ++ e
 
 def modelLine (l : Line) : String × Bool :=
   match str l "kind" with
   | "config" => (docSummary (modelObs (parseInput l)).doc, str l "obs" != "panic" && agreeConfig l)
+  | "options" =>
+    let (ms, ok) := agreeOptions l
+    (ms, str l "obs" != "panic" && ok)
   | "visit" =>
     let ms := match visitModel l with
       | some m => s!"iss={esc m.doc.Issuer};{docSummary m.doc}"
